@@ -44,6 +44,14 @@ hold in every mode); ``derivative_bound`` compares price() under no_grad with th
 whose derivatives are USER SUBCLASSES overriding moneyness() (fx * spot / strike), priced through
 BS*.from_derivative: the relations are evaluated on the contract's own price definition fx * spot.
 
+Argument integrity: after every call in ``relations`` the caller's tensors must be bitwise unchanged (class
+mutates_argument_*), and relation ``shared_tensor_reuse`` passes ONE set of same-shape tensors through American binary ->
+European call/put -> binary -> lookback -> American binary and compares each value with the one on fresh copies.
+Family ``integer_inputs``: integer-dtype time tensors (whole years) with python-number volatility through every function and
+module: result dtype of the float arguments, value of the float call to float32 accuracy (torch takes sqrt of an
+integer tensor in float32), monotone in t and sigma; integer log-moneyness 0 likewise (known finding on the current
+tree: the python volatility is truncated to integer 0).
+
 Slack.  Each computed price carries a rounding error of at most tol = 32 eps(dtype) scale with
   scale_eu = S + K,  scale_bin = 1 + e^s,  scale_lb = (S + K + M)(1 + w)^2,  w = v sqrt(t)
 (derivation in mc/checks/c07.py; C07 confirms the implementation stays within it against the exact
@@ -71,7 +79,7 @@ C_TOL = 32
 F64 = torch.float64
 ALL_RELS = ("parity", "binary_sum", "call_bounds", "unit_interval", "monotone_spot", "convex_spot",
             "monotone_vol", "monotone_time", "lookback_dominance", "american_dominance", "continuity_m0",
-            "batch_independence", "grad_mode_independence")
+            "batch_independence", "grad_mode_independence", "shared_tensor_reuse")
 
 
 def _axis(spec):
@@ -157,23 +165,48 @@ def relations(ctx, block):
     def need(*names):
         return any(r in rels for r in names)
 
+    pristine = {k: (None if getattr(g, k) is None else getattr(g, k).clone()) for k in ("s5", "m5", "t5", "v5", "K5")}
+    if not ctx.samples:
+        ctx.sample({"family": "relations", "dtype": block["dtype"], "grid": {"s": [g.s[0], g.s[-1], len(g.s)], "m": g.m, "t": g.t, "v": g.v, "K": g.K},
+                    "relations": list(rels)})
+
+    def guard(site):
+        """Caller tensors must be bitwise unchanged by a call; restores them so that later relations stay meaningful."""
+        for k, ref in pristine.items():
+            cur = getattr(g, k)
+            if ref is None:
+                continue
+            ctx.tick(1)
+            if not torch.equal(cur, ref):
+                j = int((cur != ref).flatten().nonzero()[0])
+                name = {"s5": "log_moneyness", "m5": "max_log_moneyness", "t5": "time_to_maturity", "v5": "volatility", "K5": "strike"}[k]
+                mb = {"dtype": block["dtype"], "rels": list(rels), "s": g.s if k == "s5" else g.s[:3], "m": g.m, "t": g.t[:2], "v": g.v[:2], "K": g.K[:1]}
+                ctx.violation(site, f"mutates_argument_{name}", f"{site} overwrote the caller's {name} tensor",
+                              observed=float(cur.flatten()[j]), expected=float(ref.flatten()[j]), block=mb)
+                cur.copy_(ref)
+
     # ---- evaluate the real functions once per product on the broadcast grid ----
     eu_c = eu_p = bi_c = bi_p = am = lb = None
     if need("parity", "call_bounds", "monotone_spot", "convex_spot", "monotone_vol", "monotone_time", "lookback_dominance"):
         eu_c = _expand(F.bs_european_price(g.s5, g.t5, g.v5, strike=g.K5, call=True), full)
+        guard("bs_european_price")
     if need("parity"):
         eu_p = _expand(F.bs_european_price(g.s5, g.t5, g.v5, strike=g.K5, call=False), full)
+        guard("bs_european_price")
     fullb = (nS, 1, nT, nV, 1)
     if need("binary_sum", "unit_interval", "monotone_spot", "american_dominance"):
         bi_c = _expand(F.bs_european_binary_price(g.s5, g.t5, g.v5, call=True), fullb)
         bi_p = _expand(F.bs_european_binary_price(g.s5, g.t5, g.v5, call=False), fullb)
+        guard("bs_european_binary_price")
     valid = None
     if nM:
         valid = (g.M64 >= g.S64)                                   # running max >= spot
         if need("unit_interval", "monotone_spot", "monotone_vol", "monotone_time", "american_dominance"):
             am = _expand(F.bs_american_binary_price(g.s5, g.m5, g.t5, g.v5), (nS, nM, nT, nV, 1))
+            guard("bs_american_binary_price")
         if need("monotone_spot", "convex_spot", "monotone_vol", "monotone_time", "lookback_dominance"):
             lb = _expand(F.bs_lookback_price(g.s5, g.m5, g.t5, g.v5, g.K5), (nS, nM, nT, nV, nK))
+            guard("bs_lookback_price")
     for name, x in (("bs_european_price", eu_c), ("bs_european_price", eu_p), ("bs_european_binary_price", bi_c),
                     ("bs_european_binary_price", bi_p), ("bs_american_binary_price", am), ("bs_lookback_price", lb)):
         if x is None:
@@ -222,6 +255,7 @@ def relations(ctx, block):
                 i = _first(bad)
                 ctx.violation("BSEuropeanOption.price", "parity_module", f"module C - P != S - K at s={g.s[i[0]]}, t={g.t[i[2]]}, v={g.v[i[3]]}, K={K}",
                               observed=float(d[i]), expected=0.0, block=_mini(block, g, "parity", si=[i[0]], ti=[i[2]], vi=[i[3]], ki=[ki]))
+    guard("BSEuropeanOption.price")
     # ---- binary sum ----
     if "binary_sum" in rels:
         d = bi_c + bi_p - 1
@@ -240,6 +274,7 @@ def relations(ctx, block):
                 i = _first(bad)
                 ctx.violation("BSEuropeanBinaryOption.price", "binary_sum_module", f"module binC + binP != 1 at s={g.s[i[0]]}, t={g.t[i[2]]}, v={g.v[i[3]]}, strike={K}",
                               observed=float((mc + mp_)[i]), expected=1.0, block=_mini(block, g, "binary_sum", si=[i[0]], ti=[i[2]], vi=[i[3]], ki=[nK - 1]))
+    guard("BSEuropeanBinaryOption.price")
     # ---- bounds ----
     if "call_bounds" in rels:
         intrinsic = spot_minus_strike.clamp(min=0)
@@ -423,6 +458,7 @@ def relations(ctx, block):
                                   observed=float(mixed[i]), expected=float(plain[i]),
                                   block=_mini(block, g, "batch_independence", si=[i[0]], mi=[i[1]] if (has_m and nM and same.size(1) > 1) else (list(range(nM))[:1] if has_m else None),
                                               ti=[i[2]], vi=[i[3]], ki=[i[4]] if same.size(4) > 1 else None))
+    guard("bs_*_price (mixed batch)")
     # ---- the ambient autograd mode and differentiable inputs must not change the values ----
     if "grad_mode_independence" in rels:
         def variants(with_grad):
@@ -455,6 +491,56 @@ def relations(ctx, block):
                                   f"autograd enabled and plain inputs", observed=float(b[tuple(i[:b.dim()])]), expected=float(a[tuple(i[:a.dim()])]),
                                   block=_mini(block, g, "grad_mode_independence", si=[i[0]], mi=[i[1]] if (has_m and nM and same.size(1) > 1) else (list(range(nM))[:1] if has_m else None),
                                               ti=[i[2]], vi=[i[3]], ki=[i[4]] if same.size(4) > 1 else None))
+    guard("bs_*_price (grad modes)")
+    # ---- ONE tensor object reused across the calls of a relation (American binary first) ----
+    if "shared_tensor_reuse" in rels and nM:
+        # same-shape contiguous tensors (no broadcasting): what a caller holding one path tensor passes around
+        shp = (nS, nM, nT, nV, 1)
+        P0 = {k: pristine[k].expand(shp).reshape(-1).clone() for k in ("s5", "m5", "t5", "v5")}
+        X, Mx_, T_, V_ = (P0[k].clone() for k in ("s5", "m5", "t5", "v5"))
+        K0 = g.K[-1]
+
+        def fr():
+            return tuple(P0[k].clone() for k in ("s5", "m5", "t5", "v5"))
+
+        order = [("bs_american_binary_price", lambda: F.bs_american_binary_price(X, Mx_, T_, V_)),
+                 ("bs_european_price", lambda: F.bs_european_price(X, T_, V_, strike=K0, call=True)),
+                 ("bs_european_price", lambda: F.bs_european_price(X, T_, V_, strike=K0, call=False)),
+                 ("bs_european_binary_price", lambda: F.bs_european_binary_price(X, T_, V_, call=True)),
+                 ("bs_lookback_price", lambda: F.bs_lookback_price(X, Mx_, T_, V_, K0)),
+                 ("bs_american_binary_price", lambda: F.bs_american_binary_price(X, Mx_, T_, V_))]
+        fresh = [("", lambda: (lambda a_, b_, c_, d_: F.bs_american_binary_price(a_, b_, c_, d_))(*fr())),
+                 ("", lambda: (lambda a_, b_, c_, d_: F.bs_european_price(a_, c_, d_, strike=K0, call=True))(*fr())),
+                 ("", lambda: (lambda a_, b_, c_, d_: F.bs_european_price(a_, c_, d_, strike=K0, call=False))(*fr())),
+                 ("", lambda: (lambda a_, b_, c_, d_: F.bs_european_binary_price(a_, c_, d_, call=True))(*fr())),
+                 ("", lambda: (lambda a_, b_, c_, d_: F.bs_lookback_price(a_, b_, c_, d_, K0))(*fr())),
+                 ("", lambda: (lambda a_, b_, c_, d_: F.bs_american_binary_price(a_, b_, c_, d_))(*fr()))]
+        prev = "nothing"
+        for (site, shared_call), (_, fresh_call) in zip(order, fresh):
+            before = {"s5": X.clone(), "m5": Mx_.clone(), "t5": T_.clone(), "v5": V_.clone()}
+            a, b = shared_call(), fresh_call()
+            same = (a == b) | (a.isnan() & b.isnan())
+            ctx.tick(int(same.numel()), nontrivial=int(same.numel()))
+            for nm, cur, k in (("log_moneyness", X, "s5"), ("max_log_moneyness", Mx_, "m5"), ("time_to_maturity", T_, "t5"), ("volatility", V_, "v5")):
+                ctx.tick(1)
+                if not torch.equal(cur, before[k]):
+                    j = int((cur != before[k]).nonzero()[0])
+                    i = tuple(int(x) for x in torch.unravel_index(torch.tensor(j), shp))
+                    ctx.violation(site, f"mutates_argument_{nm}", f"{site} overwrote the caller's {nm} tensor (same-shape tensors, no broadcasting): "
+                                  f"entry s={g.s[i[0]]}, m={g.m[i[1]]}, t={g.t[i[2]]}, v={g.v[i[3]]}",
+                                  observed=float(cur[j]), expected=float(P0[k][j]),
+                                  block={"dtype": block["dtype"], "rels": ["shared_tensor_reuse"], "s": [g.s[i[0]]], "m": [g.m[i[1]]], "t": [g.t[i[2]]],
+                                         "v": [g.v[i[3]]], "K": g.K[-1:]})
+            if not bool(same.all()):
+                j = int((~same).nonzero()[0])
+                i = tuple(int(x) for x in torch.unravel_index(torch.tensor(j), shp))
+                ctx.violation(site, "shared_tensor_reuse_value_changed",
+                              f"{site} on tensors already used by the previous calls (last: {prev}) differs from its value on fresh copies: "
+                              f"s={g.s[i[0]]}, m={g.m[i[1]]}, t={g.t[i[2]]}, v={g.v[i[3]]} - an earlier call changed the caller's tensor",
+                              observed=float(a[j]), expected=float(b[j]),
+                              block={"dtype": block["dtype"], "rels": ["shared_tensor_reuse"], "s": [g.s[i[0]]], "m": [g.m[i[1]]], "t": [g.t[i[2]]],
+                                     "v": [g.v[i[3]]], "K": g.K[-1:]})
+            prev = site
     # ---- continuity where the running maximum crosses the strike ----
     if "continuity_m0" in rels:
         d = g.dtype
@@ -651,6 +737,93 @@ def derivative_bound(ctx, block):
     ctx.outcome(("bound", block["strike"], block["dtype"], len(block["histories"])))
 
 
+@family
+def integer_inputs(ctx, block):
+    """Integer-dtype tensors with a python-number volatility.  (A) time to maturity in whole years as an integer tensor,
+    float log-moneyness: every price function / module must return the dtype of the float arguments and the value of
+    the call with the time tensor converted to that dtype - to float32 accuracy, because torch takes the square root
+    of an integer tensor in the default dtype float32 (so the slack is 32 eps(float32) scale whatever the float dtype);
+    hence the prices stay monotone in t and sigma across the two call forms.  (B) integer log-moneyness 0 (at the
+    money) with float time: same demand (classified separately).  block: dtype, vols, K."""
+    import pfhedge.nn as nn
+    import pfhedge.nn.functional as F
+    d = DT[block["dtype"]]
+    eps32 = torch.finfo(torch.float32).eps
+    K = block["K"]
+    tI = torch.tensor(block.get("t_int", [1, 2, 4, 5])).view(1, -1)
+    tF = tI.to(d)
+    sF = torch.tensor(block.get("s", [-0.5, -0.125, 0.0, 0.25, 0.5]), dtype=d).view(-1, 1)
+    mF = sF + 0.125
+    sI = torch.zeros(3, 1, dtype=torch.int64)
+    forms = {
+        "bs_european_price": lambda s, m, t, v: F.bs_european_price(s, t, v, strike=K, call=True),
+        "bs_european_price(put)": lambda s, m, t, v: F.bs_european_price(s, t, v, strike=K, call=False),
+        "bs_european_binary_price": lambda s, m, t, v: F.bs_european_binary_price(s, t, v, call=True),
+        "bs_american_binary_price": lambda s, m, t, v: F.bs_american_binary_price(s, m, t, v),
+        "bs_lookback_price": lambda s, m, t, v: F.bs_lookback_price(s, m, t, v, K),
+        "BSEuropeanOption.price": lambda s, m, t, v: nn.BSEuropeanOption(strike=K).price(s, t, v),
+        "BSEuropeanBinaryOption.price": lambda s, m, t, v: nn.BSEuropeanBinaryOption(strike=K).price(s, t, v),
+        "BSAmericanBinaryOption.price": lambda s, m, t, v: nn.BSAmericanBinaryOption(strike=K).price(s, m, t, v),
+        "BSLookbackOption.price": lambda s, m, t, v: nn.BSLookbackOption(strike=K).price(s, m, t, v),
+    }
+    for site, fn in forms.items():
+        if block.get("sites") and site not in block["sites"]:
+            continue
+        for case in block.get("cases", ["integer_time", "integer_log_moneyness"]):
+            prev = None
+            for v in block["vols"]:
+                if case == "integer_time":
+                    s_, m_, t_, sref, mref = sF, mF, tI, sF, mF
+                else:
+                    s_, m_, t_, sref, mref = sI, sI, tF, sI.to(d), sI.to(d)
+                ref = fn(sref, mref, tF, torch.tensor(v, dtype=d)).to(F64)
+                mb = dict(block, sites=[site], cases=[case], vols=[v])
+                try:
+                    out = fn(s_, m_, t_, v)
+                except (RuntimeError, TypeError, ValueError) as e:
+                    ctx.tick(1)
+                    ctx.violation(site.split("(")[0], f"{case}_python_volatility_raises:{type(e).__name__}", f"{site}({case}, volatility={v}) raised {e}",
+                                  observed=repr(e)[:200], expected="the value of the float call", block=mb)
+                    continue
+                n = int(ref.numel())
+                ctx.tick(n, nontrivial=n)
+                w = v * tF.to(F64).sqrt()
+                scale = K * (1 + sref.to(F64).exp() + mref.to(F64).exp()) * (1 + w) ** 2
+                if tuple(out.shape) != tuple(ref.shape) or not out.dtype.is_floating_point:
+                    ctx.violation(site.split("(")[0], f"{case}_shape_or_dtype", f"{site}({case}) returned shape {tuple(out.shape)} dtype {out.dtype}",
+                                  observed=[list(out.shape), str(out.dtype)], expected=[list(ref.shape), "floating"], block=mb)
+                    continue
+                bad = ~((out.to(F64) - ref).abs() <= C_TOL * eps32 * scale)
+                if bad.any():
+                    i = tuple(int(x) for x in bad.nonzero()[0])
+                    ctx.violation(site.split("(")[0], f"{case}_python_volatility_differs_from_float_call" if case == "integer_time"
+                                  else "integer_log_moneyness_python_volatility_truncated",
+                                  f"{site} with {'an integer-dtype time tensor' if case == 'integer_time' else 'integer log-moneyness 0'} and python-float "
+                                  f"volatility {v} returns {float(out[i])}; with the tensor converted to {block['dtype']} it returns {float(ref[i])} "
+                                  f"(t={float(tF[0, i[1]])})", observed=float(out[i]), expected=float(ref[i]), block=mb)
+                elif case == "integer_time":
+                    if out.dtype != d:
+                        ctx.violation(site.split("(")[0], "integer_time_result_dtype", f"{site}(float {block['dtype']} log-moneyness, integer time) returned {out.dtype}",
+                                      observed=str(out.dtype), expected=str(d), block=mb)
+                    o = out.to(F64)
+                    tol = C_TOL * eps32 * scale
+                    # non-decreasing in t (along the integer axis) and in sigma, call forms only
+                    if "put" not in site and "binary_price" != site[-12:] and "BSEuropeanBinaryOption" not in site:
+                        dec_t = ~(o[:, 1:] >= o[:, :-1] - 2 * tol[:, 1:])
+                        ctx.tick(int(dec_t.numel()), nontrivial=int(dec_t.numel()))
+                        if dec_t.any():
+                            ctx.violation(site, "integer_time_not_monotone_in_time", f"{site} decreases along the integer time axis (volatility {v})",
+                                          observed=o[0].tolist(), expected="non-decreasing", block=mb)
+                        if prev is not None:
+                            dec_v = ~(o >= prev - 2 * tol)
+                            ctx.tick(int(dec_v.numel()), nontrivial=int(dec_v.numel()))
+                            if dec_v.any():
+                                ctx.violation(site, "integer_time_not_monotone_in_volatility", f"{site} decreases from the previous volatility to {v}",
+                                              observed=float(o[dec_v][0]), expected="non-decreasing", block=mb)
+                        prev = o
+    ctx.outcome(("integer", block["dtype"]))
+
+
 ATTR_OPS = ("flip_call", "set_strike", "copy", "deepcopy")
 
 
@@ -746,6 +919,9 @@ def run(ctx):
                 blocks.append({"s": s_spec, "m": M, "t": [t], "v": vs, "K": K, "dtype": dname,
                                "rels": ["parity", "binary_sum", "call_bounds", "unit_interval", "monotone_spot", "convex_spot",
                                         "lookback_dominance", "american_dominance", "continuity_m0", "batch_independence", "grad_mode_independence"]})
+        # one tensor object reused across the calls of a relation (own blocks: an exception elsewhere must not hide it)
+        blocks.append({"s": {"lo": -1.0, "hi": 1.0, "n": ctx.pick(21, 81)}, "m": M, "t": T, "v": V, "K": K, "dtype": dname,
+                       "rels": ["shared_tensor_reuse"]})
         # time / volatility axes
         blocks.append({"s": s_spec, "m": M, "t": T, "v": V, "K": K, "dtype": dname, "rels": ["monotone_vol", "monotone_time"]})
     if ctx.thorough:
@@ -777,6 +953,10 @@ def run(ctx):
         for fx, Kf in ((1.25, 1.25), (0.5, 0.5)):
             ctx.run("derivative_bound", {"A": [0.75, 1.0, 1.5], "T": 3, "dt": 0.25, "sigma": 0.25, "strike": Kf, "fx": fx, "dtype": dname,
                                          "histories": [list(h) for h in itertools.product(ROUTES, repeat=1)] + [[]]})
+    # integer-dtype time / log-moneyness tensors with python-number volatility
+    for dname in ("float64", "float32"):
+        for Kv in (1.0, 2.5):
+            ctx.run("integer_inputs", {"dtype": dname, "vols": [0.1, 0.2, 0.7], "K": Kv})
     # attribute-mutation histories on the European / binary modules
     ahist = [[]] + [list(h) for dd in range(1, ctx.pick(3, 4) + 1) for h in itertools.product(ATTR_OPS, repeat=dd)]
     for dname in ("float64", "float32"):
